@@ -169,3 +169,41 @@ PLAN["C17"] = {"quick": [job("native", "model", 16, 600), job("native", "order",
                "thorough": [job("native", "model", 16, 3000), job("native", "order", 16, 3000), miri("model", 1, 1, 3000), miri("order", 2, 4, 3000)],
                "min_evaluations": {"quick": 1000, "thorough": 1000}, "assumptions": COMMON_ASSUMPTIONS + ["single-threaded access to a sink's reader side (concurrent reads of a slot are unspecified by the API)"],
                "exhaustive_note": "part 'model' enumerates every operation sequence of the length given in coverage.exhaustive_len"}
+
+LEVEL["C02"] = "exploration"
+RULES["C02"] = ("generated DAG benches (diamonds, chains through intermediate models, queries in the chain; mailbox capacities 1-3 with suspended senders, and 1-16) on ST, schedule-controlled ST "
+                "(seeded task picks and cooperative yields before every channel push) and MT 2-16 threads with delays at channel probes; a happens-before graph is built from the log (program order of each "
+                "model, send -> processing, replier end -> query completion) and, for every two sends to one recipient where the first completed happens-before the second began, the recipient must "
+                "process them in that order; non-trivial = execution containing at least one such pair issued by two different models (a chain); distinct = (bench, handler order, pick sequence) hash")
+sim_plan("C02", ["dag", "roomy", "mt"], miri_parts=["dag"], tsan_parts=["mt"])
+PLAN["C02"]["assumptions"] = COMMON_ASSUMPTIONS + ["only the happens-before edges listed in the statement are used (program order, send->delivery, reply); deliveries of one broadcast are not ordered among themselves",
+                                                  "the oracle is exercised on every run by exchanging two causally ordered invocations in copies of real logs (coverage.counters.oracle_selftest_*)"]
+
+LEVEL["C19"] = "fault_enumeration"
+RULES["C19"] = ("every bench execution ends with drop(simulation) followed by the drop of every other handle; drop-counting tokens sit in every model (sub-models included), message, reply and "
+                "in-flight handler future. prefix: healthy DAG/timer benches dropped after 0, a random number and all of their commands (idle, scheduled actions pending) on ST and MT 2-16; "
+                "deadlock: random cyclic benches dropped with blocked senders, pending queries and orphan mailboxes; faults: matrix fatal fault kind (panics, NoRecipient, OutOfSync, deadlock, "
+                "message loss, MT timeout) x trigger x scheduler queue empty/non-empty x 0-2 further calls x {ST, MT2, MT4}, dropped afterwards. Oracle: tokens created == dropped, no model code "
+                "or event after the drop returned, drop neither panics nor hangs, thread count back to its initial value; Miri/ASan add leak, double-free and use-after-free detection. "
+                "non-trivial = drop with commands executed, pending actions, a suspended handler future or a failed simulation")
+PLAN["C19"] = {"quick": [job("native", "prefix", 16, 600), job("native", "deadlock", 16, 600), job("native", "faults", 16, 600), miri("deadlock", 2, 4, 900)],
+               "thorough": [job("native", "prefix", 16, 3000), job("native", "deadlock", 16, 3000), job("native", "faults", 16, 3000),
+                            miri("deadlock", 8, 16, 3000), miri("prefix", 4, 8, 3000), miri("faults", 4, 4, 3000),
+                            job("asan", "deadlock", 8, 1800, args=["--scale", "0.2"]), job("asan", "prefix", 8, 1800, args=["--scale", "0.2"]), job("asan", "faults", 8, 1800)],
+               "min_evaluations": {"quick": 500, "thorough": 500},
+               "assumptions": COMMON_ASSUMPTIONS + ["the single-threaded executor's timeout (abandoned helper thread) is excluded, as the statement says",
+                                                   "thread accounting reads /proc/self/task and is skipped under Miri"]}
+
+LEVEL["C14"] = "exploration"
+RULES["C14"] = ("replies: generated DAG benches with Requestor queries (0-3 connections per port, plain/map/filter_map, capacity 1-3 replier mailboxes, queries nested in query handlers) and QuerySource/process_query "
+                "on ST / schedule-controlled ST / MT 2-16 threads with delays at channel and task probes; the reply sequence of every query operation must equal the reference interpreter's (one reply "
+                "per accepting connection, in connection order, computed from the mapped request), every query must complete, and no query completes before the end of one of its repliers' handlers; "
+                "clones: random sequences of clone / connect / map_connect / filter_map_connect on harness-held clones (and clones of clones) of an Output and a Requestor whose sibling clone lives "
+                "inside a model of a running simulation (ST, MT2, MT4), interleaved with events and queries sent by the model; reference model = one shared connection list; "
+                "non-trivial = execution with more than one reply compared (replies) / sequence with a connection made through a harness-held clone followed by a send or query (clones)")
+PLAN["C14"] = {"quick": [job("native", "replies", 16, 600), job("native", "clones", 16, 600), miri("replies", 2, 4, 900)],
+               "thorough": [job("native", "replies", 16, 3000), job("native", "clones", 16, 3000), miri("replies", 8, 16, 3000), miri("clones", 2, 4, 3000),
+                            job("tsan", "replies", 8, 1800, args=["--scale", "0.05"])],
+               "min_evaluations": {"quick": 500, "thorough": 500},
+               "assumptions": COMMON_ASSUMPTIONS + ["connections through clones are made between driver calls (connect takes &mut self on the harness' clone; concurrent connects while a step runs are not generated)",
+                                                   "replier completion orders are varied by schedules (task picks, yields, thread delays, capacity-1 mailboxes), not by scripted gates"]}
